@@ -204,3 +204,21 @@ Qed.
    parsers it is false (C03_unreachable_state_panics); its provable content is C03_no_panic. *)
 Definition C03_units_no_panic_full : Prop := forall P prs skip s,
   fst (next_data P prs skip s) <> Panic.
+
+(* ---- isPSIComplete IS the source ----
+   Gen/DemuxGen.v (Section PsiComplete) is translated from the current /repo/data.go on every run
+   (go/gen/demuxgen.go): the payload-length loop, bytesPool.get, the copy loop, the walk over the section headers
+   (`for i.HasBytesLeft()` with its break and early returns) and the final comparison. is_psi_complete, through which
+   every theorem above (and C02 / C06 / C07) sees isPSIComplete, is that regenerated function: for every world and
+   every bytesPool.get that returns a slice of the requested length, on payload bytes in 0..255, with fuel
+   S (payload length) the generated function terminates with exactly is_psi_complete (no panic, fuel not exhausted).
+   A "fast path", a changed mask or a reordered test in isPSIComplete breaks this proof; no generated case has to
+   reach it. *)
+Require Import Gen.DemuxGen Proofs.DemuxGenEqPsi.
+
+Theorem C03_psi_complete_is_source : forall (W : Type) (get : W -> Z -> outcome (list Z * W)),
+  (forall w n, 0 <= n -> exists bs w', get w n = Done (bs, w') /\ Z.of_nat (length bs) = n) ->
+  forall ps w, bytes_ok (concat_payload ps) ->
+  exists w', isPSIComplete W get ps (S (length (concat_payload ps))) w = Done (is_psi_complete ps, w').
+Proof. exact psi_complete_is_generated. Qed.
+Print Assumptions C03_psi_complete_is_source.
